@@ -83,8 +83,9 @@ def r06_1(ctx):
             d = holder.fields["hybrid_effect_dict"]
             keys = [to_text(k) for k in d]
             v = o.value
-            ctx.check(f"resolve_hybrid[{order}] registers the pending pair under the temporary's name and returns the temporary", keys == ["h_tmp0"] and isinstance(v, AObj) and v.cls == "LocalVar" and to_text(ctor(v, "name")) == "h_tmp0",
-                      "hybrid_effect_dict['h_tmp0'] = seq ; return LocalVar('h_tmp0')", f"keys={keys}, returns {lab(v)[:50]}", fn_where(idx, fi))
+            tname = to_text(ctor(v, "name")) if isinstance(v, AObj) and v.cls == "LocalVar" else None
+            ctx.check(f"resolve_hybrid[{order}] registers the pending pair under the temporary's name and returns the temporary", tname is not None and keys == [tname] and tname.endswith("0"),
+                      "hybrid_effect_dict[<name>] = seq ; return LocalVar(<name>), <name> = <prefix>0", f"keys={keys}, returns {lab(v)[:50]} named {tname}", fn_where(idx, fi))
             ctx.check(f"resolve_hybrid[{order}] numbers temporaries with a counter that only grows", holder.fields.get("hybrid_op_count") == 1, "hybrid_op_count 0 -> 1", str(holder.fields.get("hybrid_op_count")), fn_where(idx, fi))
     # void hybrids stay in statement position
     r = Runner(idx, keep_real=("resolve_hybrid",))
@@ -262,9 +263,31 @@ def r06_6(ctx):
                         writers.append((fi.qual, U(n)))
     exp = [("ILOpsHolder.__init__", "self.hybrid_op_count = 0"), ("RZILTransformer.resolve_hybrid", "self.il_ops_holder.hybrid_op_count += 1")]
     ctx.check("writers of hybrid_op_count", sorted(writers) == sorted(exp), str(exp), str(sorted(writers)), "rzilcompiler/Transformer/ILOpsHolder.py")
+    # the name ends with the counter's value and the counter moves on: two operations of one behaviour never share a temporary
     fi = idx.func("RZILTransformer.resolve_hybrid")
-    names = [U(n.value) for n in ast.walk(fi.node) if isinstance(n, ast.Assign) and isinstance(n.targets[0], ast.Name) and "hybrid_op_count" in U(n.value)]
-    ctx.check("temporary name generator", names == ["f'h_tmp{self.il_ops_holder.hybrid_op_count}'"], "f'h_tmp{counter}'", str(names), fn_where(idx, fi))
+    seen = []
+    for count in (7, 8, 19):
+        r = Runner(idx, keep_real=("resolve_hybrid",))
+        box = {}
+
+        def over(count=count):
+            h = AObj("ILOpsHolder", {"hybrid_effect_dict": {}, "hybrid_op_count": count}, label="holder", opaque=True)
+            box["h"] = h
+            return {"il_ops_holder": h, "hybrid_tmp_prefix": "PFX"}
+
+        def args():
+            return [AObj("Hybrid", {"value_type": mk_vt("th", True, 32), "seq_order": hyb_order("EXEC_THEN_SET_VAL"), "references_set": set()}, label="hybrid", opaque=True)]
+
+        f2, outs = r.run("resolve_hybrid", args, self_over=over, args_list=True)
+        good = [o for o in outs if o.kind != "raise"]
+        ctx.need(good, "resolve_hybrid has no non-raising path")
+        for o in good:
+            tmps = [e[2] for e in o.events if e[0] == "node" and e[1] == "LocalVar"]
+            nm = to_text(ctor(tmps[0], "name")) if len(tmps) == 1 else None
+            seen.append(nm)
+            ok = isinstance(nm, str) and nm.endswith(str(count)) and not nm[: -len(str(count))][-1:].isdigit() and box["h"].fields.get("hybrid_op_count") == count + 1
+            ctx.check(f"temporary name for counter value {count}", ok, f"<prefix>{count}, counter afterwards {count + 1}", f"name {nm}, counter afterwards {box['h'].fields.get('hybrid_op_count')}", fn_where(idx, fi))
+    ctx.check("temporary names of different counter values differ", len(set(seen)) == len(seen), "pairwise distinct", str(seen), fn_where(idx, fi), nontrivial=False)
 
 
 MUST_USE = {"chk_hybrid_dep", "resolve_hybrid", "init_a_cast", "promotion_cast", "cast_operands", "add_op"}
